@@ -755,8 +755,7 @@ def twice_check(ctx, case, n_writes=2, same_dir=False):
                     what = f' ({key}' + (f', row {row}: {b[row]} -> {a[row]})' if row is not None else ')')
                 bad.append((f'object-altered-by-write:{part}', f'write number {k} changed the {part} of the FEMData object '
                                                                f'it was called on{what}'))
-        if bad:
-            break
+        before = after      # every write is compared with the state it started from; later writes show the consequence
     return bad
 
 
